@@ -404,6 +404,9 @@ pub fn add_func(b: &mut SchemeBuilder, f: &FuncSpec) -> Result<(), String> {
     }
 }
 
+/// Builds the scheme the way a careless client would: every successful registration is followed by an attempt
+/// to register the same name (or list type) again with something else.  The attempt must be refused and must
+/// leave no trace - every check that uses the scheme afterwards is a witness of that.
 pub fn build_scheme(s: &SchemeSpec) -> Scheme {
     let mut b = SchemeBuilder::new();
     for f in &s.fields {
@@ -412,9 +415,14 @@ pub fn build_scheme(s: &SchemeSpec) -> Scheme {
         } else {
             b.add_field(&f.name, f.ty.to_engine()).unwrap();
         }
+        let other = if f.ty == Ty::Int { Type::Bytes } else { Type::Int };
+        assert!(b.add_field(&f.name, other).is_err(), "a second field {} was accepted", f.name);
+        assert!(b.add_function(&f.name, ConcatFunction::new()).is_err(), "a function named like field {} was accepted", f.name);
     }
     for f in &s.funcs {
         add_func(&mut b, f).unwrap();
+        assert!(b.add_function(&f.name, ConcatFunction::new()).is_err(), "a second function {} was accepted", f.name);
+        assert!(b.add_optional_field(&f.name, Type::Bool).is_err(), "a field named like function {} was accepted", f.name);
     }
     for (i, t) in s.lists.iter().enumerate() {
         let k = s.listkinds.get(i).map(|s| s.as_str()).unwrap_or("set");
@@ -423,6 +431,9 @@ pub fn build_scheme(s: &SchemeSpec) -> Scheme {
             "never" => b.add_list(t.to_engine(), NeverList::default()).unwrap(),
             _ => b.add_list(t.to_engine(), SetList).unwrap(),
         }
+        // a second list for the same type, of the opposite built-in kind, is refused
+        let again = if k == "always" { b.add_list(t.to_engine(), NeverList::default()) } else { b.add_list(t.to_engine(), AlwaysList::default()) };
+        assert!(again.is_err(), "a second list for one type was accepted");
     }
     b.set_nil_not_equal_behavior(s.nne);
     b.build()
